@@ -760,6 +760,8 @@ def run(model, tier):
     sites += sdrz_site(model, res)
     sites += geneos_site(model, res)
     sites += blackbox_sites(model, res)
+    from . import c02_blackbox
+    c02_blackbox.fields(model, res)     # ... and _run returns exactly the two states those conditions relate
     sites += ep_piston_site(model, res)
     res.extra['jump_sites'] = sites
     if sites < MIN_SITES:
